@@ -98,7 +98,11 @@ CouponList<A>* CouponList<A>::newList(const void* bytes, size_t len, const A& al
   const bool oooFlag = ((data[hll_constants::FLAGS_BYTE] & hll_constants::OUT_OF_ORDER_FLAG_MASK) ? true : false);
   const bool emptyFlag = ((data[hll_constants::FLAGS_BYTE] & hll_constants::EMPTY_FLAG_MASK) ? true : false);
 
+  HllUtil<A>::checkLgK(lgK);
   const uint32_t couponCount = data[hll_constants::LIST_COUNT_BYTE];
+  if (couponCount > (1u << hll_constants::LG_INIT_LIST_SIZE)) {
+    throw std::invalid_argument("Possible corruption: coupon count exceeds the list capacity: " + std::to_string(couponCount));
+  }
   const uint32_t couponsInArray = (compact ? couponCount : (1 << HllUtil<A>::computeLgArrInts(LIST, couponCount, lgK)));
   const size_t expectedLength = hll_constants::LIST_INT_ARR_START + (couponsInArray * sizeof(uint32_t));
   if (len < expectedLength) {
@@ -108,6 +112,8 @@ CouponList<A>* CouponList<A>::newList(const void* bytes, size_t len, const A& al
 
   ClAlloc cla(allocator);
   CouponList<A>* sketch = new (cla.allocate(1)) CouponList<A>(lgK, tgtHllType, mode, allocator);
+  using coupon_list_ptr = std::unique_ptr<CouponList<A>, std::function<void(HllSketchImpl<A>*)>>;
+  coupon_list_ptr ptr(sketch, sketch->get_deleter());
   sketch->couponCount_ = couponCount;
   sketch->putOutOfOrderFlag(oooFlag); // should always be false for LIST
 
@@ -115,8 +121,9 @@ CouponList<A>* CouponList<A>::newList(const void* bytes, size_t len, const A& al
     // only need to read valid coupons, unlike in stream case
     std::memcpy(sketch->coupons_.data(), data + hll_constants::LIST_INT_ARR_START, couponCount * sizeof(uint32_t));
   }
-  
-  return sketch;
+  sketch->checkCouponCount();
+
+  return ptr.release();
 }
 
 template<typename A>
@@ -142,9 +149,13 @@ CouponList<A>* CouponList<A>::newList(std::istream& is, const A& allocator) {
   const target_hll_type tgtHllType = HllSketchImpl<A>::extractTgtHllType(listHeader[hll_constants::MODE_BYTE]);
 
   const uint8_t lgK = listHeader[hll_constants::LG_K_BYTE];
+  HllUtil<A>::checkLgK(lgK);
   const bool compact = ((listHeader[hll_constants::FLAGS_BYTE] & hll_constants::COMPACT_FLAG_MASK) ? true : false);
   const bool oooFlag = ((listHeader[hll_constants::FLAGS_BYTE] & hll_constants::OUT_OF_ORDER_FLAG_MASK) ? true : false);
   const bool emptyFlag = ((listHeader[hll_constants::FLAGS_BYTE] & hll_constants::EMPTY_FLAG_MASK) ? true : false);
+  if (listHeader[hll_constants::LIST_COUNT_BYTE] > (1u << hll_constants::LG_INIT_LIST_SIZE)) {
+    throw std::invalid_argument("Possible corruption: coupon count exceeds the list capacity");
+  }
 
   ClAlloc cla(allocator);
   CouponList<A>* sketch = new (cla.allocate(1)) CouponList<A>(lgK, tgtHllType, mode, allocator);
@@ -164,8 +175,22 @@ CouponList<A>* CouponList<A>::newList(std::istream& is, const A& allocator) {
 
   if (!is.good())
     throw std::runtime_error("error reading from std::istream"); 
+  sketch->checkCouponCount();
 
   return ptr.release();
+}
+
+// the count field of an image must agree with the coupons actually stored (sizes of later allocations depend on it)
+template<typename A>
+void CouponList<A>::checkCouponCount() const {
+  uint32_t stored = 0;
+  for (const uint32_t coupon: coupons_) {
+    if (coupon != hll_constants::EMPTY) ++stored;
+  }
+  if (stored != couponCount_) {
+    throw std::invalid_argument("Possible corruption: coupon count " + std::to_string(couponCount_)
+        + " does not match the number of stored coupons " + std::to_string(stored));
+  }
 }
 
 template<typename A>
